@@ -125,6 +125,10 @@ func (o *Obligation) solve(timeoutS int) *SolveResult {
 			return &SolveResult{Status: "unsat", Backend: "trivial"}
 		}
 	}
+	if o.Kind == "anchor" {
+		// structural: a contract clause whose program point is gone fails without consulting a solver
+		return &SolveResult{Status: "sat", Backend: "structural", Output: o.Descr}
+	}
 	quick := 3
 	if timeoutS < quick {
 		quick = timeoutS
